@@ -70,6 +70,7 @@ func linesPublishedBlanked(c *Ctx, rule string, rnl *FuncInfo) {
 }
 
 func runC10(c *Ctx) {
+	c10Prog = c.P
 	p := c.P
 	c.Rule("C10-R1", "comments parsed and excluded text blanked before a line is published; writers of the line buffer", 6)
 	c.Rule("C10-R2", "nothing is collected from lines excluded by an earlier comment; such lines are blanked completely", 8)
@@ -105,13 +106,26 @@ func runC10(c *Ctx) {
 			return false
 		})
 		c.Check(len(fills) == 1, "C10-R1", "readNextLine:fills the buffer once", rnl.Decl.Pos(), "one fill", itoa(len(fills))+" stores to r.buf")
+		// a local the buffer was filled from (`line, err := read(); r.buf = line`) stands for the buffer
+		bufAlias := map[types.Object]bool{}
+		for _, f := range fills {
+			if as, ok := f.Inner.(*ast.AssignStmt); ok && len(as.Lhs) == len(as.Rhs) {
+				for i, l := range as.Lhs {
+					if fieldSel(info, l, CR, "buf") {
+						if o := objOf(info, as.Rhs[i]); o != nil {
+							bufAlias[o] = true
+						}
+					}
+				}
+			}
+		}
 		for _, f := range fills {
 			reach, _ := fl.Reach(f.Site.After(), nil, true, PathQ{
 				Avoid: isPC,
 				Cut: func(atoms []Atom) bool {
 					for _, a := range atoms {
 						if be, ok := ast.Unparen(a.E).(*ast.BinaryExpr); ok && a.Tag == nil && a.Truth && be.Op == token.EQL {
-							if call, ok := be.X.(*ast.CallExpr); ok && exprStr(call.Fun) == "len" && fieldSel(info, call.Args[0], CR, "buf") {
+							if call, ok := be.X.(*ast.CallExpr); ok && exprStr(call.Fun) == "len" && len(call.Args) == 1 && (fieldSel(info, call.Args[0], CR, "buf") || bufAlias[objOf(info, call.Args[0])]) {
 								if k, isC := constInt(info, be.Y); isC && k == 0 {
 									return true
 								}
@@ -490,43 +504,81 @@ func runC10(c *Ctx) {
 
 	// ---- R3 ----
 	{
-		fl := p.NewFlow(ecl)
-		stores := fl.Find(func(n ast.Node) bool {
-			as, ok := n.(*ast.AssignStmt)
-			if !ok || len(as.Lhs) != 1 {
-				return false
+		// every function of the reader that overwrites bytes of r.buf writes spaces and never the
+		// line terminator; emptyCurrentLine blanks itself or through such a function
+		type blanker struct {
+			fi     *FuncInfo
+			fl     *Flow
+			stores []SiteMatch
+		}
+		var blankers []blanker
+		for _, fi := range p.AllFuncs() {
+			if fi.Pkg != ecl.Pkg || fi.Decl.Body == nil || p.IsTestFile(fi.Decl.Pos()) {
+				continue
 			}
-			ix, ok := as.Lhs[0].(*ast.IndexExpr)
-			return ok && fieldSel(info, ix.X, CR, "buf")
-		})
-		c.Check(len(stores) == 1, "C10-R3", "emptyCurrentLine:one element store", ecl.Decl.Pos(), "single store", itoa(len(stores))+" element stores")
-		for _, s := range stores {
-			as := s.Inner.(*ast.AssignStmt)
-			v, isC := constInt(info, as.Rhs[0])
-			c.Check(isC && v == ' ', "C10-R3", "emptyCurrentLine:stores a space", as.Pos(), "' '", "blanking writes something other than a space")
-			ix := as.Lhs[0].(*ast.IndexExpr)
-			// the byte at that index is also known as the value variable of `for i, b := range r.buf`
-			var elem types.Object
-			epm := parentMap(ecl.Decl.Body)
-			for cur := epm[ast.Node(as)]; cur != nil; cur = epm[cur] {
-				if rs, ok := cur.(*ast.RangeStmt); ok && fieldSel(info, rs.X, CR, "buf") && rs.Key != nil && rs.Value != nil && objOf(info, rs.Key) != nil && objOf(info, rs.Key) == objOf(info, ix.Index) {
-					elem = objOf(info, rs.Value)
-				}
-			}
-			notNL := fl.Dominated(s.Site, nil, func(a Atom) bool {
-				be, ok := ast.Unparen(a.E).(*ast.BinaryExpr)
-				if !ok || a.Tag != nil {
+			bfl := p.NewFlow(fi)
+			st := bfl.Find(func(n ast.Node) bool {
+				as, ok := n.(*ast.AssignStmt)
+				if !ok || len(as.Lhs) != 1 {
 					return false
 				}
-				lhs, ok := ast.Unparen(be.X).(*ast.IndexExpr)
-				isElem := elem != nil && objOf(info, be.X) == elem
-				if !isElem && (!ok || !fieldSel(info, lhs.X, CR, "buf") || exprStr(lhs.Index) != exprStr(ix.Index)) {
-					return false
-				}
-				k, isC := constInt(info, be.Y)
-				return isC && k == '\n' && ((be.Op == token.EQL && !a.Truth) || (be.Op == token.NEQ && a.Truth))
+				ix, ok := as.Lhs[0].(*ast.IndexExpr)
+				return ok && fieldSel(info, ix.X, CR, "buf")
 			})
-			c.Check(notNL, "C10-R3", "emptyCurrentLine:newline never overwritten", as.Pos(), "guarded", "the line terminator can be blanked (lines merge, every later position shifts)")
+			if len(st) > 0 {
+				blankers = append(blankers, blanker{fi, bfl, st})
+			}
+		}
+		eclBlanks := false
+		for _, b := range blankers {
+			if b.fi == ecl {
+				eclBlanks = true
+			}
+		}
+		if !eclBlanks {
+			ast.Inspect(ecl.Decl.Body, func(n ast.Node) bool {
+				if call, ok := n.(*ast.CallExpr); ok {
+					for _, b := range blankers {
+						if Callee(info, call) == b.fi.Obj {
+							eclBlanks = true
+						}
+					}
+				}
+				return true
+			})
+		}
+		c.Check(eclBlanks, "C10-R3", "emptyCurrentLine:one element store", ecl.Decl.Pos(), "blanks r.buf itself or through a blanking method", "emptyCurrentLine no longer overwrites bytes of r.buf")
+		for _, b := range blankers {
+			fl := b.fl
+			name := b.fi.Obj.Name()
+			for _, s := range b.stores {
+				as := s.Inner.(*ast.AssignStmt)
+				v, isC := constInt(info, as.Rhs[0])
+				c.Check(isC && v == ' ', "C10-R3", name+":stores a space", as.Pos(), "' '", "blanking writes something other than a space")
+				ix := as.Lhs[0].(*ast.IndexExpr)
+				// the byte at that index is also known as the value variable of `for i, b := range r.buf`
+				var elem types.Object
+				epm := parentMap(b.fi.Decl.Body)
+				for cur := epm[ast.Node(as)]; cur != nil; cur = epm[cur] {
+					if rs, ok := cur.(*ast.RangeStmt); ok && fieldSel(info, rs.X, CR, "buf") && rs.Key != nil && rs.Value != nil && objOf(info, rs.Key) != nil && objOf(info, rs.Key) == objOf(info, ix.Index) {
+						elem = objOf(info, rs.Value)
+					}
+				}
+				notNL := fl.Dominated(s.Site, nil, func(a Atom) bool {
+					be, ok := ast.Unparen(a.E).(*ast.BinaryExpr)
+					if !ok || a.Tag != nil {
+						return false
+					}
+					lhs, ok := ast.Unparen(be.X).(*ast.IndexExpr)
+					isElem := elem != nil && objOf(info, be.X) == elem
+					if !isElem && (!ok || !fieldSel(info, lhs.X, CR, "buf") || exprStr(lhs.Index) != exprStr(ix.Index)) {
+						return false
+					}
+					k, isC := constInt(info, be.Y)
+					return isC && k == '\n' && ((be.Op == token.EQL && !a.Truth) || (be.Op == token.NEQ && a.Truth))
+				})
+				c.Check(notNL, "C10-R3", name+":newline never overwritten", as.Pos(), "guarded", "the line terminator can be blanked (lines merge, every later position shifts)")
+			}
 		}
 		// the comment offset compared with byte indexes of r.buf is itself a byte offset:
 		// comments.parseComment takes it from ranging over a string (not over []rune)
@@ -608,5 +660,26 @@ func c10IsBlanker(fi *FuncInfo) bool {
 		}
 		return true
 	})
-	return n >= 1 && n == good
+	if n >= 1 && n == good {
+		return true
+	}
+	if n > 0 {
+		return false
+	}
+	// no store of its own: a method that does nothing to r.buf but hand the work to a blanker
+	// (emptyCurrentLine computing how much to blank and calling emptyLinePrefix)
+	delegates := false
+	ast.Inspect(fi.Decl.Body, func(nd ast.Node) bool {
+		if call, ok := nd.(*ast.CallExpr); ok {
+			if fn := Callee(info, call); fn != nil && fn != fi.Obj && c10Prog != nil {
+				if cf := c10Prog.FuncOf(fn); cf != nil && cf.Pkg == fi.Pkg && cf != fi && c10IsBlanker(cf) {
+					delegates = true
+				}
+			}
+		}
+		return true
+	})
+	return delegates
 }
+
+var c10Prog *Prog
